@@ -354,6 +354,48 @@ fn vext_plain(b: Bencher) {
     });
 }
 
+// ---- numeric time limits in attributes (seconds; `IntoDuration` for u64 / f64 / Duration) ----
+/// a huge whole number of seconds as the ceiling: never reached
+#[divan::bench(max_time = u64::MAX, sample_count = 3, sample_size = 1)]
+fn vmax_u64max(b: Bencher) {
+    run("vmax_u64max");
+    b.bench(|| vcall("vmax_u64max"));
+}
+
+/// the same through `Duration`
+#[divan::bench(max_time = std::time::Duration::from_secs(u64::MAX), sample_count = 3, sample_size = 1)]
+fn vmax_durmax(b: Bencher) {
+    run("vmax_durmax");
+    b.bench(|| vcall("vmax_durmax"));
+}
+
+/// a huge floor above a small fractional ceiling: the ceiling ends the run
+#[divan::bench(min_time = u64::MAX, max_time = 0.000002, sample_count = 2, sample_size = 1)]
+fn vmin_u64max(b: Bencher) {
+    run("vmin_u64max");
+    b.bench(|| vcall("vmin_u64max"));
+}
+
+#[divan::bench(min_time = std::time::Duration::from_secs(u64::MAX), max_time = 0.000002, sample_count = 2, sample_size = 1)]
+fn vmin_durmax(b: Bencher) {
+    run("vmin_durmax");
+    b.bench(|| vcall("vmin_durmax"));
+}
+
+/// a floor just below 2^64 s above a small ceiling
+#[divan::bench(min_time = 18446744073709550591u64, max_time = 0.000002, sample_count = 2, sample_size = 1)]
+fn vmin_big(b: Bencher) {
+    run("vmin_big");
+    b.bench(|| vcall("vmin_big"));
+}
+
+/// a whole number of seconds above 2^53 (not representable as f64) as the ceiling
+#[divan::bench(max_time = 9007199254740993u64, sample_count = 3, sample_size = 1)]
+fn vmax_2p53(b: Bencher) {
+    run("vmax_2p53");
+    b.bench(|| vcall("vmax_2p53"));
+}
+
 /// On the OS timer: every call really takes at least 400 ms.
 #[divan::bench(sample_count = 6, sample_size = 1)]
 fn os_sleep400(b: Bencher) {
@@ -410,6 +452,12 @@ const ALL: &[&str] = &[
     "hx_loop_e2e::vskip_attr",
     "hx_loop_e2e::vsgrp::vskip_grp",
     "hx_loop_e2e::vext_plain",
+    "hx_loop_e2e::vmax_u64max",
+    "hx_loop_e2e::vmax_durmax",
+    "hx_loop_e2e::vmin_u64max",
+    "hx_loop_e2e::vmin_durmax",
+    "hx_loop_e2e::vmin_big",
+    "hx_loop_e2e::vmax_2p53",
 ];
 
 /// `HX_BUILDER`: `;`-separated builder calls (`sample_count=7`, `sample_size=3`,
